@@ -55,6 +55,52 @@ func (p Policy) String() string {
 	return "?"
 }
 
+// goid returns the id of the calling goroutine (parsed from the first line of
+// its stack trace: "goroutine 123 [running]:"; about a microsecond).
+//
+//go:norace
+func goid() uint64 {
+	var buf [40]byte
+	n := runtime.Stack(buf[:], false)
+	var id uint64
+	for i := len("goroutine "); i < n && buf[i] >= '0' && buf[i] <= '9'; i++ {
+		id = id*10 + uint64(buf[i]-'0')
+	}
+	return id
+}
+
+// StrayCalls counts simulator entry points reached, while a run was active, by
+// a goroutine that is not the task holding the baton (a goroutine the code
+// under test started outside any run and that is still alive). Such a caller is
+// not a task: it gets the real primitive and never touches scheduler state.
+var StrayCalls uint64
+
+// TakeStrayCalls returns and resets StrayCalls (controller, between runs).
+//
+//go:norace
+func TakeStrayCalls() uint64 {
+	n := StrayCalls
+	StrayCalls = 0
+	return n
+}
+
+// me returns the task the calling goroutine IS, or nil. The baton holder is a
+// global; identity is checked against the goroutine id so that a goroutine
+// from outside the run can never impersonate the task that holds the baton.
+//
+//go:norace
+func me() *task {
+	t := cur
+	if t == nil {
+		return nil
+	}
+	if t.goid != goid() {
+		StrayCalls++
+		return nil
+	}
+	return t
+}
+
 // Locker is satisfied by *sync.Mutex and *sync.RWMutex.
 type Locker interface {
 	Lock()
@@ -81,6 +127,7 @@ type task struct {
 	panicV  interface{}
 	panicS  string
 	prio    int // PCT
+	goid    uint64
 	spawned bool // started by a go statement inside a task; PCT priority drawn by the controller when first seen
 
 	// channel operations through the scheduler (chansim.go)
@@ -137,6 +184,9 @@ type Options struct {
 var (
 	cur    *task // task holding the baton, nil while the controller runs
 	active *Sim
+	// outsideMu serialises updates of shadow state (WaitGroup counts) made by goroutines that are not tasks
+	// while no run is active: the controller between runs, and goroutines the code under test started there
+	outsideMu sync.Mutex
 )
 
 // Deadlock is returned by Run when no task can run but some are blocked.
@@ -213,7 +263,7 @@ func (s *Sim) NumTasks() int { return len(s.tasks) }
 //
 //go:norace
 func Spawn(fn func(), site string) {
-	t := cur
+	t := me()
 	if t == nil || t.abort {
 		go fn()
 		return
@@ -234,6 +284,7 @@ type abortSentinel struct{}
 func (s *Sim) taskMain(t *task) {
 	defer s.wg.Done()
 	defer s.taskExit(t)
+	t.goid = goid()
 	raceDisable()
 	<-t.wake
 	raceEnable()
@@ -281,7 +332,7 @@ func handOff(t *task, site string) {
 //
 //go:norace
 func Yield(site string) {
-	t := cur
+	t := me()
 	if t == nil || t.abort {
 		return
 	}
@@ -293,7 +344,7 @@ func Yield(site string) {
 //
 //go:norace
 func Lock(m Locker, site string) {
-	t := cur
+	t := me()
 	if t == nil {
 		m.Lock()
 		return
@@ -377,7 +428,7 @@ func unblock(m interface{}) {
 //
 //go:norace
 func Unlock(m Locker, site string) {
-	t := cur
+	t := me()
 	if t != nil && t.abort {
 		// unwinding after a deadlock / step limit: the lock may or may not be
 		// held; unlocking an unlocked mutex is fatal, so settle it first
@@ -399,7 +450,7 @@ func Unlock(m Locker, site string) {
 
 //go:norace
 func RLock(m RLocker, site string) {
-	t := cur
+	t := me()
 	if t == nil {
 		m.RLock()
 		return
@@ -418,8 +469,8 @@ func RLock(m RLocker, site string) {
 
 //go:norace
 func RUnlock(m RLocker, site string) {
+	t := me() // identity first (see ChanClose)
 	m.RUnlock()
-	t := cur
 	if t == nil {
 		return
 	}
@@ -543,6 +594,8 @@ func startWatchdog() {
 				}
 				if time.Since(since) > time.Duration(WatchdogSeconds)*time.Second {
 					fmt.Fprintf(os.Stderr, "VERIF-WATCHDOG a task did not yield within %ds (parked in an uninstrumented primitive or spinning)\n", WatchdogSeconds)
+					buf := make([]byte, 1<<20)
+					os.Stderr.Write(buf[:runtime.Stack(buf, true)])
 					os.Exit(2)
 				}
 			}
@@ -571,7 +624,9 @@ func (s *Sim) Run() error {
 	if active != nil {
 		panic("simrt: nested Sim.Run")
 	}
+	outsideMu.Lock() // barrier against a goroutine outside any run that is updating shadow state right now
 	active = s
+	outsideMu.Unlock()
 	defer endRun()
 	startWatchdog()
 
@@ -674,6 +729,8 @@ func (s *Sim) Run() error {
 
 //go:norace
 func endRun() {
+	outsideMu.Lock()
+	defer outsideMu.Unlock()
 	active = nil
 	cur = nil
 	resetSyncSim()
@@ -684,7 +741,7 @@ func endRun() {
 // InTask reports whether the caller runs as a simulated task.
 //
 //go:norace
-func InTask() bool { return cur != nil }
+func InTask() bool { return me() != nil }
 
 func mix(h, a, b uint64) uint64 {
 	h ^= a
